@@ -38,26 +38,39 @@ fn eval_filename(root: &PathBuf, ni: usize) -> Option<Violation> {
     use std::os::unix::ffi::OsStrExt;
     let dir = root.join("target").join("tmp");
     let _ = std::fs::create_dir_all(&dir);
-    let name = FILE_NAMES[ni];
-    let path = dir.join(std::ffi::OsStr::from_bytes(name));
-    let _ = std::fs::remove_file(&path);
+    // the first names are joined to an absolute directory; the others are relative paths (a bare
+    // file name, "./name", a path through "sub/..") given with that directory as the working directory
+    let rel: [&str; 3] = ["bare.png", "./dot-slash.png", "sub/../through-parent.png"];
+    let (given, shown): (PathBuf, String) = if ni < FILE_NAMES.len() { (dir.join(std::ffi::OsStr::from_bytes(FILE_NAMES[ni])), String::from_utf8_lossy(FILE_NAMES[ni]).to_string()) } else { (PathBuf::from(rel[ni - FILE_NAMES.len()]), format!("{} (relative to the working directory)", rel[ni - FILE_NAMES.len()])) };
+    let old_cwd = std::env::current_dir().ok();
+    if ni >= FILE_NAMES.len() {
+        let _ = std::fs::create_dir_all(dir.join("sub"));
+        if std::env::set_current_dir(&dir).is_err() {
+            return None;
+        }
+    }
+    let abs = dir.join(&given);
+    let _ = std::fs::remove_file(&abs);
     let px: Vec<u32> = vec![0xff102030, 0x80402010, 0, 0xffffffff, 0x01010101, 0xfe7f00fe];
     let r = guard(|| {
         let dt = DrawTarget::from_vec(3, 2, px.clone());
-        dt.write_png(&path).map_err(|e| format!("{:?}", e))
+        dt.write_png(&given).map_err(|e| format!("{:?}", e))
     });
-    let ok = match r {
-        Ok(Ok(())) => match std::fs::read(&path) {
+    if let Some(c) = old_cwd {
+        let _ = std::env::set_current_dir(c);
+    }
+    let ok = match &r {
+        Ok(Ok(())) => match std::fs::read(&abs) {
             Ok(raw) => raw.len() > 20 && raw[..4] == [0x89, b'P', b'N', b'G'],
             Err(_) => false,
         },
         _ => false,
     };
-    let _ = std::fs::remove_file(&path);
+    let _ = std::fs::remove_file(&abs);
     if ok {
         None
     } else {
-        Some(Violation::new("layout/png-not-written-to-the-given-path", format!("kind=filename idx={}", ni), format!("write_png did not leave a PNG file at exactly the path it was given ({:?})", String::from_utf8_lossy(name))))
+        Some(Violation::new("layout/png-not-written-to-the-given-path", format!("kind=filename idx={}", ni), format!("write_png did not leave a PNG file at exactly the path it was given ({:?}); it returned {:?}", shown, r)))
     }
 }
 
@@ -335,9 +348,9 @@ impl Check for C19 {
             }
         });
         // the export goes to exactly the path it is given, also when that is not valid UTF-8
-        run.bound("file names", "export of a 3x2 surface to file names with non-UTF-8 bytes, spaces and a trailing dot, in an existing directory".to_string());
+        run.bound("file names", "export of a 3x2 surface to file names with non-UTF-8 bytes, spaces and a trailing dot in an existing directory, and to relative paths (bare file name, ./name, sub/../name)".to_string());
         run.seq(|l| {
-            for ni in 0..FILE_NAMES.len() {
+            for ni in 0..FILE_NAMES.len() + 3 {
                 l.states += 1;
                 l.transitions += 1;
                 l.traces += 1;
